@@ -10,7 +10,8 @@ def build_case(rnd):
     Y = np.array([[rnd.choice(present + [200])] for _ in range(n)], dtype='uint8')
     if rnd.random() < 0.5 and len(present) > 1:      # make one class appear exactly once
         Y[Y[:, 0] == present[0]] = present[1]; Y[0, 0] = present[0]
-    X = np.array([[rnd.randint(-20, 20) for _ in range(S)] for _ in range(n)], dtype=rnd.choice(['int16', 'float32', 'float64']))
+    xdt = rnd.choice(['int16', 'float32', 'float64', 'uint8', 'int8']); lim = {'int16': 300, 'uint8': 255, 'int8': 127}.get(xdt, 20)      # integer storage types up to their range: products must not wrap
+    X = np.array([[rnd.randint(0 if xdt == 'uint8' else -lim, lim) for _ in range(S)] for _ in range(n)], dtype=xdt)
     d = type('TB', (partitioned.PartitionedDistinguisherBase, template._TemplateBuildDistinguisherMixin), {})(partitions=classes, precision='float64'); pos = 0
     while pos < n: k = rnd.randint(1, n - pos); d.update(X[pos:pos + k], Y[pos:pos + k]); pos += k
     t = d.compute(); Xf = X.astype('float64'); cov = np.zeros((S, S))
